@@ -6,6 +6,10 @@ package netpoll
 // Contracts for the stream adapters (nocopy_readwriter.go). Comment-only, build tag verif.
 // They are verified modularly over the LinkBuffer contracts (callee contract, not body).
 
+// ghost counters: bytes the wrapped source has produced / the wrapped sink has accepted so far
+//@ ghost global produced int
+//@ ghost global sunk int
+
 // adapter invariant: the private buffer is well formed and has nothing pending between calls
 //@ pred zcrok(r *zcReader) = r.r != nil && r.buf != nil && wf(r.buf) && r.buf.mallocSize == 0
 //@ pred zcwok(w *zcWriter) = w.w != nil && w.buf != nil && wf(w.buf)
@@ -14,9 +18,11 @@ package netpoll
 //@   property C16
 //@   requires zcrok(r)
 //@   ensures zcrok(r) && rpos(r.buf) == old(rpos(r.buf)) && r.buf.length >= old(r.buf.length) && fpos(r.buf) - old(fpos(r.buf)) == r.buf.length - old(r.buf.length)
-//@   ensures err == nil && old(r.buf.length) < n ==> true
-//@   modifies r.buf.mallocSize, r.buf.write, r.buf.flush, r.buf.length, linkBufferNode.next, linkBufferNode.malloc, linkBufferNode.buf, linkBufferNode.refer, linkBufferNode.own, linkBufferNode.ord, linkBufferNode.sp, mem, pool, blknode, cacheown, cacheidx
+//@   ensures r.buf.length - old(r.buf.length) == produced - old(produced)
+//@   modifies r.buf.mallocSize, r.buf.write, r.buf.flush, r.buf.length, linkBufferNode.next, linkBufferNode.malloc, linkBufferNode.buf, linkBufferNode.refer, linkBufferNode.own, linkBufferNode.ord, linkBufferNode.sp, mem, pool, blknode, cacheown, cacheidx, produced
+//@   ghost before call (*UnsafeLinkBuffer).MallocAck#1: produced = produced + num
 //@   loop 1 invariant zcrok(r) && rpos(r.buf) == old(rpos(r.buf)) && r.buf.length >= old(r.buf.length) && fpos(r.buf) - old(fpos(r.buf)) == r.buf.length - old(r.buf.length) && 0 <= i
+//@   loop 1 invariant r.buf.length - old(r.buf.length) == produced - old(produced)
 //@   loop 1 invariant forall m *linkBufferNode :: wasalloc(m) && old(m.own) != r.buf ==> samenode(m)
 //@   loop 1 invariant forall m *linkBufferNode :: m != nil && m.own != old(m.own) ==> m.own == r.buf || m.own == nil
 //@   loop 1 invariant samepool()
@@ -27,8 +33,10 @@ package netpoll
 //@   requires zcrok(r)
 //@   ensures zcrok(r) && rpos(r.buf) == old(rpos(r.buf)) && r.buf.length >= old(r.buf.length) && fpos(r.buf) - old(fpos(r.buf)) == r.buf.length - old(r.buf.length)
 //@   ensures err == nil ==> r.buf.length >= n
-//@   modifies r.buf.mallocSize, r.buf.write, r.buf.flush, r.buf.length, linkBufferNode.next, linkBufferNode.malloc, linkBufferNode.buf, linkBufferNode.refer, linkBufferNode.own, linkBufferNode.ord, linkBufferNode.sp, mem, pool, blknode, cacheown, cacheidx
+//@   ensures r.buf.length - old(r.buf.length) == produced - old(produced)
+//@   modifies r.buf.mallocSize, r.buf.write, r.buf.flush, r.buf.length, linkBufferNode.next, linkBufferNode.malloc, linkBufferNode.buf, linkBufferNode.refer, linkBufferNode.own, linkBufferNode.ord, linkBufferNode.sp, mem, pool, blknode, cacheown, cacheidx, produced
 //@   loop 1 invariant zcrok(r) && rpos(r.buf) == old(rpos(r.buf)) && r.buf.length >= old(r.buf.length) && fpos(r.buf) - old(fpos(r.buf)) == r.buf.length - old(r.buf.length)
+//@   loop 1 invariant r.buf.length - old(r.buf.length) == produced - old(produced)
 
 //@ func (*zcReader).Next
 //@   property C16
@@ -87,6 +95,8 @@ package netpoll
 //@   requires zcwok(w)
 //@   ensures zcwok(w) && w.buf.mallocSize == 0
 //@   ensures fpos(w.buf) == old(mpos(w.buf)) && rpos(w.buf) >= old(rpos(w.buf)) && rpos(w.buf) <= fpos(w.buf)
+//@   ensures rpos(w.buf) - old(rpos(w.buf)) == sunk - old(sunk)
+//@   ghost after call invoke.Write#1: sunk = sunk + max(result0, 0)
 //@   modifies anything
 //@
 //@ func (*zcWriter).Malloc
